@@ -19,11 +19,14 @@ class Product:
         self.kind = kind
         self.tag = tag or f"p{os.getpid()}_{next(_counter)}"
         self.storage_options = {}
-        if kind == "mcfs":
+        if kind in ("mcfs", "mcfs-shared"):
             self.store = f"st_{self.tag}"
             vfs.put_product(self.store, "/prod", files)
             self.url = "mcfs://prod"
             self.storage_options = {"store": self.store}
+            if kind == "mcfs-shared":  # open() hands out one shared, rewound file object per path (like memory://)
+                self.storage_options["shared_handles"] = True
+                self.kind = kind = "mcfs"
             self.dir = None
         elif kind in ("local", "file"):
             self.dir = env.scratch_root() / f"prod_{self.tag}"
@@ -47,12 +50,17 @@ class Product:
         lib = env.import_lib()
         return lib.open_alos2(self.url, backend_options=self.options(**kw))
 
-    def put(self, name, data):
-        """(over)write one file of the product"""
+    def put(self, name, data, keep_mtime=False):
+        """(over)write one file of the product; keep_mtime: like a timestamp-preserving copy (cp -p, rsync -t, tar)"""
         if self.kind == "mcfs":
             vfs.STORES[self.store][f"/prod/{name}"] = bytes(data)
+            vfs.touch(self.store, f"/prod/{name}", keep_mtime=keep_mtime)
         elif self.kind in ("local", "file"):
-            (self.dir / name).write_bytes(data)
+            p = self.dir / name
+            st = p.stat() if keep_mtime and p.exists() else None
+            p.write_bytes(data)
+            if st is not None:
+                os.utime(p, ns=(st.st_atime_ns, st.st_mtime_ns))
         else:
             import fsspec
 
